@@ -231,6 +231,10 @@ KeyLoop:
 
 	cde = t.GetCurrent()
 	ode = out.GetCurrent()
+	if cde == nil {
+		// a row without an element (outNull()/inNull()) has no fields to select
+		return t
+	}
 
 	if len(excludePaths) > 0 {
 		cde = excludeFields(cde, excludePaths)
